@@ -28,12 +28,15 @@ import (
 )
 
 type job struct {
-	kind  byte // 'c' client, 's' server
+	kind  byte // 'c' client, 's' server, 'C' client call sequence, 'S' server request sequence, 'X' shared-structure client sequence
 	path  string
 	req   request
 	reqSx string // server: "(r ...)" or "n"
 	doc   []byte
 	pairs [][2]string
+	paths []string    // 'C': the paths of the consecutive calls
+	sreqs []serverReq // 'S'
+	req2  request     // 'X'
 }
 
 func main() {
@@ -47,18 +50,38 @@ func main() {
 		for _, l := range hx.ReadLines(*replay) {
 			in := hx.MustParse(l)[0]
 			a := in.Args()
-			switch in.Head() {
-			case "client":
-				sink.Put(execClient(a[0].Str(), parseRequest(a[1])))
-			case "server":
+			pairsOf := func(rq hx.Sx) [][2]string {
 				var pairs [][2]string
-				if a[1].IsList {
-					r := parseRequest(a[1].List[1])
+				if rq.IsList {
+					r := parseRequest(rq.List[1])
 					for _, p := range r.paths {
 						pairs = append(pairs, [2]string{p, rfcEscape(p)})
 					}
 				}
-				sink.Put(execServer(a[0].Str(), a[1].String(), []byte(a[2].Str()), pairs))
+				return pairs
+			}
+			switch in.Head() {
+			case "client":
+				// the earlier calls of the sequence (same value, same client) are made again
+				var paths []string
+				if len(a) > 2 {
+					for _, p := range a[2].Args() {
+						paths = append(paths, p.Str())
+					}
+				}
+				paths = append(paths, a[0].Str())
+				lines := execClientCalls(parseRequest(a[1]), paths)
+				sink.Put(lines[len(lines)-1])
+			case "server":
+				var reqs []serverReq
+				if len(a) > 3 {
+					for _, p := range a[3].Args() {
+						reqs = append(reqs, serverReq{path: p.List[0].Str(), reqSx: "n", doc: []byte(p.List[1].Str())})
+					}
+				}
+				reqs = append(reqs, serverReq{a[0].Str(), a[1].String(), []byte(a[2].Str()), pairsOf(a[1])})
+				lines := execServerSeq(reqs)
+				sink.Put(lines[len(lines)-1])
 			}
 		}
 		return
@@ -76,9 +99,22 @@ func main() {
 		go func() {
 			defer wg.Done()
 			for j := range jobs {
-				if j.kind == 'c' {
+				switch j.kind {
+				case 'c':
 					sink.Put(execClient(j.path, j.req))
-				} else {
+				case 'C':
+					for _, l := range execClientCalls(j.req, j.paths) {
+						sink.Put(l)
+					}
+				case 'X':
+					for _, l := range execShared(j.req, j.req2, j.paths) {
+						sink.Put(l)
+					}
+				case 'S':
+					for _, l := range execServerSeq(j.sreqs) {
+						sink.Put(l)
+					}
+				default:
 					sink.Put(execServer(j.path, j.reqSx, j.doc, j.pairs))
 				}
 			}
@@ -89,6 +125,19 @@ func main() {
 	serverDoc := func(path string, r request, plain bool) {
 		root, pairs := rfcDocument(r)
 		jobs <- job{kind: 's', path: path, reqSx: hx.L("r", requestSx(r)), doc: serialize(root, rng, plain), pairs: pairs}
+	}
+
+	seqPaths := []string{"/cal/work/1.ics", "/cal/work/2.ics", "/cal/home/b d.ics"}
+	mkServerReq := func(path string, r request, plain bool) serverReq {
+		root, pairs := rfcDocument(r)
+		return serverReq{path, hx.L("r", requestSx(r)), serialize(root, rng, plain), pairs}
+	}
+	// the same, calendar-data written without comp (only documents are built on
+	// this goroutine, so the switch is not shared with the workers)
+	mkServerReqNC := func(path string, r request, plain bool) serverReq {
+		omitComp = true
+		defer func() { omitComp = false }()
+		return mkServerReq(path, r, plain)
 	}
 
 	// ---- exhaustive: every filter tree with <= 3 nodes x all flag combinations,
@@ -167,6 +216,24 @@ func main() {
 		for k := 0; k < 2; k++ {
 			serverDoc(path, u, false)
 		}
+		if n%6 == 0 {
+			// the same value through three consecutive calls (multigets also without Paths)
+			rs := r
+			if r.multiget && rng.Bool() {
+				rs.paths = nil
+			}
+			jobs <- job{kind: 'C', req: rs, paths: []string{rng.Pick(seqPaths), rng.Pick(reportPaths), rng.Pick(seqPaths)}}
+			// one handler: this document, a damaged one, another request's document
+			root, _ := rfcDocument(u)
+			mutate(root, rng)
+			u2 := utcRequest(randRequest(rng, true))
+			reqs := []serverReq{mkServerReq(path, u, false), {path: path, reqSx: "n", doc: serialize(root, rng, true)}}
+			if validRequest(u2) {
+				reqs = append(reqs, mkServerReq(path, u2, false))
+			}
+			reqs = append(reqs, mkServerReq(path, u, true))
+			jobs <- job{kind: 'S', sreqs: reqs}
+		}
 		if n%10 == 0 {
 			// a declaration or foreign attribute spelled like an attribute of
 			// the grammar (repaired defect eba20a7)
@@ -188,6 +255,64 @@ func main() {
 			jobs <- job{kind: 's', path: path, reqSx: "n", doc: serialize(root, rng, true)}
 		}
 	}
+	// ---- sequences: one request VALUE through consecutive client calls on
+	// different paths; consecutive REPORTs through ONE handler value.  Every
+	// call / request is compared with the model on its own inputs.
+	rawReq := func(path, doc string) serverReq { return serverReq{path: path, reqSx: "n", doc: []byte(doc)} }
+	seqCrs := []crV{exCrs[0], exCrs[1], exCrs[2], {name: "VCALENDAR"}, {name: "VCALENDAR", allprops: true, allcomps: true, expand: &[2]inst{exEnd, utcInst(exStart)}}}
+	for n, cr := range seqCrs {
+		// a multiget without Paths (the default href), with one and with several explicit paths, and a query
+		jobs <- job{kind: 'C', req: request{multiget: true, cr: cr}, paths: seqPaths}
+		jobs <- job{kind: 'C', req: request{multiget: true, cr: cr, paths: []string{goodPaths[n]}}, paths: seqPaths[:2]}
+		jobs <- job{kind: 'C', req: request{multiget: true, cr: cr, paths: goodPaths[n : n+3]}, paths: seqPaths}
+		jobs <- job{kind: 'C', req: request{cr: cr, cf: exhaustiveSample(n)}, paths: []string{"/cal/", "/u/cal/work/", "/cal/"}}
+		// two values sharing their slices and pointers, used alternately
+		jobs <- job{kind: 'X', req: request{cr: cr, cf: exhaustiveSample(n + 7)}, req2: request{cr: seqCrs[(n+1)%len(seqCrs)], cf: exhaustiveSample(n + 3)}, paths: []string{"/cal/", "/cal/a b/", "/cal/"}}
+		jobs <- job{kind: 'X', req: request{multiget: true, cr: cr}, req2: request{multiget: true, cr: seqCrs[(n+2)%len(seqCrs)], paths: []string{"/cal/x.ics"}}, paths: seqPaths}
+	}
+	{
+		// one handler, requests whose calendar-data differs in every way: stale
+		// state of request k would show in request k+1
+		const head = `<C:calendar-query xmlns:C="urn:ietf:params:xml:ns:caldav" xmlns:D="DAV:">`
+		const filt = `<C:filter><C:comp-filter name="VCALENDAR"/></C:filter></C:calendar-query>`
+		expandOnly := head + `<D:prop><C:calendar-data><C:expand start="20200101T000000Z" end="20200201T000000Z"/></C:calendar-data></D:prop>` + filt
+		emptyData := head + `<D:prop><C:calendar-data/></D:prop>` + filt
+		noData := head + `<D:prop><D:getetag/></D:prop>` + filt
+		noProp := head + filt
+		mgEmptyData := `<C:calendar-multiget xmlns:C="urn:ietf:params:xml:ns:caldav" xmlns:D="DAV:"><D:prop><C:calendar-data/></D:prop><D:href>/cal/a.ics</D:href></C:calendar-multiget>`
+		mgExpandOnly := `<C:calendar-multiget xmlns:C="urn:ietf:params:xml:ns:caldav" xmlns:D="DAV:"><D:prop><C:calendar-data><C:expand start="20210101T000000Z" end="20210201T000000Z"/></C:calendar-data></D:prop><D:href>/cal/b.ics</D:href></C:calendar-multiget>`
+		full := func(i int) request {
+			return request{cr: utcCr(seqCrs[i%len(seqCrs)]), cf: cfV{name: "VCALENDAR", start: zeroInst, end: zeroInst}}
+		}
+		mg := func(i int) request {
+			return request{multiget: true, cr: utcCr(seqCrs[i%len(seqCrs)]), paths: []string{"/cal/a.ics", "/cal/b.ics"}}
+		}
+		whole := func(ex *[2]inst, mgt bool) request {
+			r := request{multiget: mgt, cr: crV{allprops: true, allcomps: true, expand: ex}, cf: cfV{name: "VCALENDAR", start: zeroInst, end: zeroInst}}
+			if mgt {
+				r.paths = []string{"/cal/a.ics"}
+			}
+			return r
+		}
+		ex1 := &[2]inst{exEnd, {exEnd.sec + 86400, 0}}
+		// the whole object asked for without comp (with expand, then without): expand must not stick
+		jobs <- job{kind: 'S', sreqs: []serverReq{mkServerReqNC("/cal/", whole(ex1, false), true), mkServerReqNC("/cal/", whole(nil, false), false),
+			mkServerReq("/cal/", full(1), true), mkServerReqNC("/cal/work/", whole(nil, true), false), mkServerReq("/cal/", whole(nil, false), false)}}
+		jobs <- job{kind: 'S', sreqs: []serverReq{mkServerReqNC("/cal/", whole(ex1, true), false), mkServerReqNC("/cal/", whole(nil, true), true),
+			mkServerReqNC("/cal/", whole(ex1, false), false), mkServerReqNC("/cal/", whole(nil, false), true)}}
+		for k := 0; k < 20; k++ {
+			// always as a sequence (with expand first), so that a failing line names its history
+			ex := &[2]inst{utcInst(randInst(rng)), utcInst(randInst(rng))}
+			jobs <- job{kind: 'S', sreqs: []serverReq{mkServerReqNC(rng.Pick(reportPaths), whole(ex, k%3 == 0), false),
+				mkServerReqNC(rng.Pick(reportPaths), whole(nil, k%2 == 0), false)}}
+		}
+		jobs <- job{kind: 'S', sreqs: []serverReq{rawReq("/cal/", expandOnly), rawReq("/cal/", emptyData), mkServerReq("/cal/", full(1), true), rawReq("/cal/", emptyData)}}
+		jobs <- job{kind: 'S', sreqs: []serverReq{mkServerReq("/cal/", full(2), true), rawReq("/cal/", noData), rawReq("/cal/", emptyData), rawReq("/cal/", noProp)}}
+		jobs <- job{kind: 'S', sreqs: []serverReq{rawReq("/cal/", mgExpandOnly), rawReq("/cal/", mgEmptyData), mkServerReq("/cal/", mg(2), true), rawReq("/cal/", emptyData)}}
+		jobs <- job{kind: 'S', sreqs: []serverReq{mkServerReq("/cal/", mg(1), true), mkServerReq("/cal/work/", full(0), true), mkServerReq("/cal/", mg(3), true), mkServerReq("/cal/", full(4), true)}}
+		jobs <- job{kind: 'S', sreqs: []serverReq{mkServerReq("/cal/", full(2), true), mkServerReq("/cal/", full(3), true), mkServerReq("/cal/", full(2), true)}}
+	}
+
 	// ---- around encoding/xml's nesting limit
 	deepQ := func(cf cfV, cr crV, client bool) {
 		r := request{cr: cr, cf: cf}
